@@ -112,10 +112,11 @@ type Ctx struct {
 	extra      map[string]any
 	inconcl    []string
 
-	known     []KnownFinding
-	knownSeen map[string]bool // known finding ids whose witness/signature was observed in this run
-	WorkDir   string          // scratch directory for this run (outside /repo and /verif)
-	worker    bool
+	known      []KnownFinding
+	knownSeen  map[string]bool // known finding ids whose witness/signature was observed in this run
+	singleCase bool
+	WorkDir    string // scratch directory for this run (outside /repo and /verif)
+	worker     bool
 }
 
 func newCtx(ch *Check, tier string, seed int64) *Ctx {
@@ -733,6 +734,9 @@ func raceSignature(blk string) (string, bool) {
 // ---- evidence --------------------------------------------------------------------------------
 
 func (c *Ctx) writeEvidence(wall float64) {
+	if c.singleCase {
+		return // a --case / --cases / --replay run is a diagnosis, not a check run: it must not replace the evidence
+	}
 	cov := map[string]any{
 		"evaluations":         c.evals,
 		"distinct_nontrivial": len(c.distinct),
@@ -883,6 +887,7 @@ func runCheck(ch *Check, tier string, seed int64, oneCase int) int {
 	}
 	switch {
 	case oneCase >= 0:
+		c.singleCase = true
 		if ch.Init != nil {
 			ch.Init(c)
 		}
